@@ -554,8 +554,8 @@ func c01CheckForeignFilter(c *Ctx, R string, g *ssa.Function) {
 	// accumulator: count phi J (result descs[:J]) or slice phi (result R)
 	var acc *ssa.Phi
 	okRet := true
-	for _, a := range RetAtoms(g, 0) {
-		switch u := a.Val.(type) {
+	for _, rt := range Returns(g) {
+		switch u := rt.Results[0].(type) {
 		case *ssa.Slice:
 			if p, ok := u.High.(*ssa.Phi); ok && p.Block() == header && u.Low == nil && c01SameStrip(u.X, g.Params[0]) {
 				acc = p
